@@ -32,10 +32,14 @@ class Result:
         self.all = all_ or {}
 
 
-def z3_check(assertions, timeout_ms=2000, want_model=False, seed=0):
+def z3_check(assertions, timeout_ms=2000, want_model=False, seed=0, rlimit=None):
+    """In-process z3.  With `rlimit` the effort bound is z3's deterministic resource counter, so the answer
+    does not depend on how busy the machine is (the wall-clock timeout stays as a safety net)."""
     z3 = tm.z3mod()
     s = z3.Solver()
     s.set("timeout", int(timeout_ms))
+    if rlimit:
+        s.set("rlimit", int(rlimit))
     if seed:
         s.set("random_seed", int(seed) % (2 ** 31))
     for a in assertions:
